@@ -780,6 +780,16 @@ if not re.search(r"if\s*\(\s*this->quality\s*>=\s*96\s*\|\|\s*flags\s*&\s*TJFLAG
         not re.search(r"if\s*\(\s*flags\s*&\s*TJFLAG_LIMITSCANS\s*\)\s*this->scanLimit\s*=\s*500", pf_body):
     sys.exit("processFlags: fastDCT / scanLimit conditions changed")
 
+# cinfo members the TurboJPEG compression functions assign themselves before setCompDefaults() / jpeg_set_defaults()
+pre_defaults = []
+for fname_ in ("tj3Compress8", "tj3Compress12", "tj3Compress16", "tj3CompressFromYUVPlanes8", "tj3EncodeYUVPlanes8"):
+    b_ = [b for n, b, s_ in fns if n == fname_][0]
+    cut = b_.find("setCompDefaults")
+    if cut < 0:
+        sys.exit("%s no longer calls setCompDefaults" % fname_)
+    sj = b_.find("setjmp")
+    pre_defaults.append((fname_, [x for x in assigned(b_[sj if sj >= 0 else 0:cut], roots=("cinfo",)) if "->" not in x]))
+
 # global_state values
 jpegint = rd("src/jpegint.h")
 gstates = []
@@ -915,5 +925,8 @@ print("Definition copy_option_table : list (Z * ((bool * bool * bool) * (bool * 
     ["(%d, ((%s, %s, %s), (%s, %s, %s)))" % ((r[0],) + tuple(str(x).lower() for x in r[1:])) for r in copy_rows]))
 print("(* processFlags(): parameter members assigned, in order (compression variant: fastDCT twice, by the quality test) *)")
 print("Definition process_flags_fields : list string :=\n  %s.\n" % coq_list([qs(f) for f, _ in pf_assign if not (f == "fastDCT" and _ == "FASTDCT")]))
+print("(* cinfo members each TurboJPEG compression function assigns itself before setCompDefaults() *)")
+print("Definition tj_pre_defaults : list (string * list string) :=\n  %s.\n" % coq_list(
+    ["(%s, %s)" % (qs(n), coq_list([qs(x) for x in fs])) for n, fs in pre_defaults]))
 print("(* tj3Compress*: setCompDefaults is called before jpeg_mem_dest_tj *)")
 print("Definition compress_defaults_before_dest : bool := %s." % str(comp_defaults_before_dest).lower())
